@@ -88,6 +88,14 @@ class Models(object):
     def contains(self, ex, path, c, item):
         return None
 
+    def in_values(self, ex, path, mv, item):
+        """item in d.values()"""
+        try:
+            mv.vt.unwrap(item)
+        except AssertionError:
+            return [(path, z3.BoolVal(False))]     # a value of another type is never among the values
+        return None
+
     def index(self, ex, path, o, i):
         return None
 
@@ -113,7 +121,7 @@ class Models(object):
             if pt is not None:
                 nm = VMap(z3.Store(o.t, k, opt.dt.constructor(0)()), o.kt, o.vt)
                 if o.keys is not None:
-                    raise NotImplementedError
+                    nm.keys = VSeq(seq_remove_fn(o.keys.t.sort())(o.keys.t, k), o.keys.elem)
                 out.extend(self._writeback(ex, pt, tgt, fr, nm))
             if pf is not None:
                 out.extend(ex.raise_(pf, KeyError, i))
@@ -220,7 +228,7 @@ class Models(object):
                 return [(path, ex.new_list(path, []) if obj is list else VTuple([]))]
             a = args[0]
             if isinstance(a, VSeq):
-                return [(path, a)]
+                return [(path, VSeq(a.t, a.elem))]     # a copy: no write-back origin
             if isinstance(a, VBoundExt):
                 raise Unsupported('list of bound method')
             items = ex.iter_concrete(path, a)
@@ -320,7 +328,13 @@ class Models(object):
                 return ex.raise_(path, TypeError, 'no len')
         if isinstance(v, (VNone, VInt, VBool)):
             return ex.raise_(path, TypeError, 'no len')
+        r = self.len_hook(ex, path, v)
+        if r is not None:
+            return r
         raise Unsupported('len of %r' % (v,))
+
+    def len_hook(self, ex, path, v):
+        return None
 
     def _isinstance(self, ex, path, v, clsv):
         from .exec import Unsupported
@@ -993,6 +1007,8 @@ class Models(object):
         from .exec import Unsupported
         if name == 'keys' and mv.keys is not None:
             return [(path, mv.keys)]
+        if name == 'values':
+            return [(path, VBoundExt(mv, '__values_view__'))]
         if name == 'get':
             opt = TOpt(mv.vt)
             k = mv.kt.unwrap(args[0])
@@ -1006,6 +1022,11 @@ class Models(object):
                 out.append((pf, default))
             return out
         raise Unsupported('map method %s' % name)
+
+
+def seq_remove_fn(seq_sort):
+    """uninterpreted: the key sequence of a dict after deleting one key (dicts keep insertion order)"""
+    return z3.Function('keys_without', seq_sort, seq_sort.basis(), seq_sort)
 
 
 def _replace_all(s, a, b):
